@@ -237,12 +237,46 @@ class Extracted:
         return order
 
     def _check_normalize_model(self):
+        """normalize_unicode(string, form='NFKD') is the characters of unicodedata.normalize(form, string) that are not of category Mn,
+        joined - written as a filtered comprehension or as a loop that collects them"""
         f = self.ctx.ix.func("dateparser.utils:normalize_unicode")
-        t = " ".join(ast.unparse(f.node).split())
-        import re as _re
-        if "unicodedata.normalize(form, string)" not in t or not _re.search(r"unicodedata\.category\((\w+)\) != 'Mn'", t) \
-                or [ast.unparse(d) for d in f.node.args.defaults] != ["'NFKD'"]:
-            raise AnalysisError(RULE, "normalize_unicode no longer is NFKD minus Mn")
+        bad = AnalysisError(RULE, "normalize_unicode no longer is NFKD minus Mn")
+        ps = f.params()
+        if len(ps) != 2 or [ast.unparse(d) for d in f.node.args.defaults] != ["'NFKD'"]:
+            raise bad
+        src = "unicodedata.normalize(%s, %s)" % (ps[1], ps[0])
+
+        def keeps(test, var):
+            """+1: the test is true for the characters that are kept, -1: for those that are dropped, 0: something else"""
+            t = " ".join(ast.unparse(test).split())
+            if t == "unicodedata.category(%s) != 'Mn'" % var or t == "not unicodedata.category(%s) == 'Mn'" % var:
+                return 1
+            if t == "unicodedata.category(%s) == 'Mn'" % var or t == "not unicodedata.category(%s) != 'Mn'" % var:
+                return -1
+            return 0
+        body = [x for x in f.node.body if not (isinstance(x, ast.Expr) and isinstance(x.value, ast.Constant))]
+        ret = body[-1] if body and isinstance(body[-1], ast.Return) else None
+        if ret is None or not (isinstance(ret.value, ast.Call) and ast.unparse(ret.value.func) == "''.join" and len(ret.value.args) == 1):
+            raise bad
+        arg = ret.value.args[0]
+        if len(body) == 1 and isinstance(arg, (ast.GeneratorExp, ast.ListComp)) and len(arg.generators) == 1:
+            g = arg.generators[0]
+            if isinstance(g.target, ast.Name) and isinstance(arg.elt, ast.Name) and arg.elt.id == g.target.id and ast.unparse(g.iter) == src \
+                    and len(g.ifs) == 1 and keeps(g.ifs[0], g.target.id) == 1:
+                return
+            raise bad
+        # acc = []; for c in <src>: [if <dropped>: continue] acc.append(c) | if <kept>: acc.append(c); return ''.join(acc)
+        if len(body) == 3 and isinstance(arg, ast.Name) and isinstance(body[0], ast.Assign) and ast.unparse(body[0]) == "%s = []" % arg.id \
+                and isinstance(body[1], ast.For) and not body[1].orelse and isinstance(body[1].target, ast.Name) and ast.unparse(body[1].iter) == src:
+            v, acc, lb = body[1].target.id, arg.id, body[1].body
+            app = "%s.append(%s)" % (acc, v)
+            if len(lb) == 2 and isinstance(lb[0], ast.If) and not lb[0].orelse and keeps(lb[0].test, v) == -1 \
+                    and len(lb[0].body) == 1 and isinstance(lb[0].body[0], ast.Continue) and ast.unparse(lb[1]) == app:
+                return
+            if len(lb) == 1 and isinstance(lb[0], ast.If) and not lb[0].orelse and keeps(lb[0].test, v) == 1 \
+                    and len(lb[0].body) == 1 and ast.unparse(lb[0].body[0]) == app:
+                return
+        raise bad
 
     def _check_normalized_dictionary(self):
         from .c16 import _norm_fingerprint
@@ -322,7 +356,8 @@ def _normalize(self):
             f = ix.func(fkey)
             p = f.params()[0]
             out = []
-            for s in f.node.body:
+            from .util import pipeline_body
+            for s in pipeline_body(f.node.body, p):
                 if isinstance(s, ast.Expr) and isinstance(s.value, ast.Constant):
                     continue        # docstring
                 if isinstance(s, ast.Return):
